@@ -6,17 +6,15 @@
    A trie of height `keys` over rows is represented by its bag of rows: inserts never create
    empty nodes, so the node structure is a function of the rows (children of a node at depth d
    = rows grouped by column d+1).  The ALGORITHMS are transcribed on this representation:
-   GhtInner/GhtLeaf partial_cmp (with its `unreachable!()` arm, outcome sets because HashMap
-   iteration order is free), GhtInner eq, the changed flags of merge / merge_node, the
+   GhtInner/GhtLeaf partial_cmp (outcome sets because HashMap iteration order is free), GhtInner eq, the changed flags of merge / merge_node, the
    equality of VariadicHashSet / VariadicCountedHashSet.  Query results are the relational
    ones (RefRet).
 
    One initial state = one case: a store type and two sets of rows A, B from the row domain;
    the case's script is a fixed battery of operations (Battery) exercising every operation
    the type offers, before and after a merge and a drain.  Invariants: the monitor never
-   flags a rule (C08/C10 on the model), CmpFact (the transcribed partial_cmp returns the
-   reference order whenever it returns, and reaches `unreachable!()` only on incomparable
-   tries -- the property-level question for the real code is decided on recorded traces),
+   flags a rule (C08/C10 on the model), CmpFact (the transcribed partial_cmp always returns the
+   order of the row sets, whatever the iteration order),
    Emit prints the script as a CASE line. *)
 EXTENDS TupleStore, TLC, Json
 
@@ -71,7 +69,7 @@ CmpOutcomes(A, B, d, k) ==
              selfGreater == ha \ hb # {} \/ \E h \in ha \cap hb : "gt" \in sub(h)
              otherGreater == hb \ ha # {} \/ \E h \in ha \cap hb : "lt" \in sub(h)
          IN IF early # {} THEN early
-            ELSE IF selfGreater /\ otherGreater THEN {"panic"}       \* (true, true) => unreachable!()
+            ELSE IF selfGreater /\ otherGreater THEN {"none"}        \* (true, true) => None
             ELSE IF selfGreater THEN {"gt"}
             ELSE IF otherGreater THEN {"lt"}
             ELSE {"eq"}
@@ -196,11 +194,8 @@ Step ==
     /\ script # <<>>
     /\ LET o == Head(script)
            outcomes == CmpOutcomes(Supp(rows[1]), Supp(rows[2]), 0, keys)
-           \* the transcribed partial_cmp may reach unreachable!(): the monitor is then fed the
-           \* reference order, the fact is covered by CmpFact
            ret == IF o.op = "cmp"
-                  THEN (IF "panic" \in outcomes THEN RefCmp(Supp(rows[1]), Supp(rows[2]))
-                        ELSE CHOOSE x \in outcomes : TRUE)
+                  THEN CHOOSE x \in outcomes : TRUE
                   ELSE RefRet(o.op, o.s, o.row, o.head, o.prefix)
        IN MOp(o.op, o.s, o.row, o.rows, o.head, o.prefix, ret, FALSE)
     /\ script' = Tail(script)
@@ -212,14 +207,11 @@ Next == Step \/ Finished
 Spec == Init /\ [][Next]_vars
 
 -----------------------------------------------------------------------------
-\* whenever the transcribed partial_cmp returns, it returns the order of the row sets; it
-\* reaches unreachable!() only for incomparable tries, and never for leaves
+\* the transcribed partial_cmp has exactly one possible result whatever the iteration order,
+\* and it is the order of the row sets
 CmpFact ==
-    LET A == Supp(rows[1])  B == Supp(rows[2])
-        out == CmpOutcomes(A, B, 0, keys)
-    IN (fam = "ght" /\ sem = "set") =>
-        /\ out \subseteq {RefCmp(A, B), "panic"}
-        /\ ("panic" \in out => RefCmp(A, B) = "none" /\ keys > 0)
+    LET A == Supp(rows[1])  B == Supp(rows[2]) IN
+    (fam = "ght" /\ sem = "set") => CmpOutcomes(A, B, 0, keys) = {RefCmp(A, B)}
 
 ModelInv == NoRuleBroken /\ odd = {}
 
